@@ -126,6 +126,20 @@ def spec_case(name, rule, k, outty, specfn, axioms=()):
                 d = sincos_axiom(P.reduce_inv(pc.fpoly(t) - pc.fpoly(sp[lane].t)))
                 if d.is_zero():
                     st, detail = R.PROVED, 'equal to the definition modulo sin^2 + cos^2 = 1'
+            if st == R.UNDECIDED:
+                # an explicit rational input (angles as rational points of the unit circle) at which the two normal forms evaluate to different numbers
+                try:
+                    d = P.reduce_inv(pc.fpoly(t) - pc.fpoly(sp[lane].t))
+                    env = P.find_witness('gt', Poly.const(1), [d]) if P.transparent(d) else None
+                except (P.NonFinite, P.TooBig, P.CantEval):
+                    env = None
+                if env is not None:
+                    for a_ in P.lane_atoms([pc.fpoly(t), pc.fpoly(sp[lane].t)]):
+                        env.setdefault(a_, Fraction(1))
+                    try:
+                        st, detail = R.REFUTED, 'differs from the definition at %s: got %s, definition %s' % (P.show_env(env), P.eval_poly(pc.fpoly(t), env), P.eval_poly(pc.fpoly(sp[lane].t), env))
+                    except P.CantEval:
+                        st, detail = R.REFUTED, 'differs from the definition at %s (difference %s)' % (P.show_env(env), P.eval_poly(d, env))
             if st != R.PROVED and any(x.op == 'in' and x.args[0] == 'o' for x in tm.walk(t)):
                 detail += '  [o[..] is the previous content of the result object: the lane is never written]'
             res.append(R.ob(oid, rule, st, detail, where=R.where_of(it, t) if st != R.PROVED else None, kernel=k.source()))
